@@ -36,6 +36,12 @@ pub fn payload_bytes(id: u64, cls: &str, size: usize, words: &[String]) -> Vec<u
             v.truncate(size.max(4));
             v
         }
+        "rep" => vec![b'a'; size.max(1)],                 // UTF-8, maximally compressible
+        "zeros" => vec![0u8; size.max(1)],                // valid UTF-8 (NUL characters)
+        "prose" => {
+            let base = "The quick brown fox jumps over the lazy dog while the memory store keeps every frame it was given, exactly as written. ";
+            base.repeat(size / base.len() + 1).into_bytes()[..size.max(1)].to_vec()
+        }
         "zero" => {
             // always carries the id so that distinct payload ids are distinct bytes
             let mut v = vec![0u8; size.max(10)];
@@ -82,6 +88,7 @@ pub struct Ctx {
     pub embs: HashMap<Vec<u32>, i64>,    // embedding bits -> id
     pub last_count: usize,
     pub ro_digest: Option<([u8; 32], u64, Option<std::time::SystemTime>)>, // file identity when the read-only handle was opened
+    pub batch_level: Option<i32>, // compression level of the open batch (begin_batch .. end_batch)
 }
 
 pub fn hex(b: &[u8]) -> String {
@@ -125,14 +132,14 @@ impl Ctx {
             Err(_) => scratch_dir("core"),
         };
         let path = dir.path().join("m.mv2");
-        let mut c = Ctx { dir, path, mem: None, ro: false, digests: HashMap::new(), embs: HashMap::new(), last_count: 0, ro_digest: None };
+        let mut c = Ctx { dir, path, mem: None, ro: false, digests: HashMap::new(), embs: HashMap::new(), last_count: 0, ro_digest: None, batch_level: None };
         c.register_payload(0, b"");
         c
     }
 
     /// A context over an existing file (crash-left state) with the payload registry of the run that produced it.
     pub fn at(dir: tempfile::TempDir, path: PathBuf, registry: &Value) -> Ctx {
-        let mut c = Ctx { dir, path, mem: None, ro: false, digests: HashMap::new(), embs: HashMap::new(), last_count: 0, ro_digest: None };
+        let mut c = Ctx { dir, path, mem: None, ro: false, digests: HashMap::new(), embs: HashMap::new(), last_count: 0, ro_digest: None, batch_level: None };
         if let Some(m) = registry["digests"].as_object() {
             for (k, v) in m {
                 let mut d = [0u8; 32];
@@ -281,6 +288,50 @@ impl Ctx {
         })
     }
 
+    /// C07: several blob readers alive at once, drained in small alternating pieces with other frame reads in between,
+    /// must each stream exactly their frame's canonical payload.
+    fn blob_interleaved_ok(&mut self, frames: &[Frame]) -> bool {
+        let Some(mem) = self.mem.as_mut() else { return true };
+        let ids: Vec<u64> = frames.iter().filter(|f| f.payload_length > 0 && f.chunk_manifest.is_none()).map(|f| f.id).take(4).collect();
+        if ids.len() < 2 {
+            return true;
+        }
+        let r = catch_unwind(AssertUnwindSafe(|| {
+            let mut want = Vec::new();
+            let mut readers = Vec::new();
+            for id in &ids {
+                match (mem.frame_canonical_payload(*id), mem.blob_reader(*id)) {
+                    (Ok(w), Ok(r)) => {
+                        want.push(w);
+                        readers.push(r);
+                    }
+                    _ => return true, // unreadable frames are judged by frame.pay, not here
+                }
+            }
+            let mut got: Vec<Vec<u8>> = vec![Vec::new(); readers.len()];
+            let mut done = vec![false; readers.len()];
+            let mut round = 0usize;
+            while done.iter().any(|d| !d) && round < 100_000 {
+                for (k, rd) in readers.iter_mut().enumerate() {
+                    if done[k] {
+                        continue;
+                    }
+                    let mut buf = [0u8; 13];
+                    match rd.read(&mut buf) {
+                        Ok(0) => done[k] = true,
+                        Ok(n) => got[k].extend_from_slice(&buf[..n]),
+                        Err(_) => return false,
+                    }
+                    // touch another frame through the handle between two partial reads
+                    let _ = mem.frame_canonical_payload(ids[(k + 1) % ids.len()]);
+                }
+                round += 1;
+            }
+            got == want
+        }));
+        r.unwrap_or(false)
+    }
+
     pub fn observe(&mut self, force_full: bool) -> Value {
         let fv = self.file_view();
         let dir = self.dir_listing();
@@ -312,6 +363,7 @@ impl Ctx {
                 }
                 o["frames"] = json!(fj);
                 o["payload_end"] = json!(payload_end);
+                o["blob_interleaved_ok"] = json!(self.blob_interleaved_ok(&frames));
             }
             let m = self.mem.as_ref().unwrap();
             if let Ok(st) = m.stats() {
@@ -487,6 +539,17 @@ fn hit_json(m: &mut Memvid, h: &memvid_core::types::SearchHit) -> Value {
     json!({"f": h.frame_id, "rank": h.rank, "a": h.range.0, "b": h.range.1, "ca": ca, "cb": cb, "text_ok": text_ok})
 }
 
+/// Bytes a payload occupies in the file: UTF-8 is stored zstd-compressed (level 3, or the batch's level; 0 = plain),
+/// everything else verbatim.  This is what the capacity check charges.
+fn stored_len(bytes: &[u8], batch_level: Option<i32>) -> usize {
+    let level = batch_level.unwrap_or(3);
+    if level != 0 && std::str::from_utf8(bytes).is_ok() {
+        zstd::encode_all(std::io::Cursor::new(bytes), level).map(|v| v.len()).unwrap_or(bytes.len())
+    } else {
+        bytes.len()
+    }
+}
+
 fn card_json(c: &memvid_core::types::MemoryCard) -> Value {
     let val = c.value.strip_prefix("val-").and_then(|k| k.parse::<i64>().ok()).unwrap_or(-1);
     json!({"id": c.id, "entity": c.entity, "slot": c.slot, "value": val, "eff": c.effective_timestamp(),
@@ -591,6 +654,7 @@ pub fn exec(ctx: &mut Ctx, op: &Value) -> (Value, Value) {
                 }
             }
             extra["stored_hint"] = json!(bytes.len());
+            extra["stored_len"] = json!(stored_len(&bytes, ctx.batch_level));
             let e_vec = emb.map(|e| embedding(e, dim));
             if let (Some(e), Some(v)) = (emb, e_vec.as_ref()) {
                 ctx.register_emb(e as i64, v);
@@ -630,6 +694,9 @@ pub fn exec(ctx: &mut Ctx, op: &Value) -> (Value, Value) {
                 let b = payload_bytes(id as u64, cls, size, &words_of(op));
                 (id, b)
             });
+            if let Some((_, b)) = payload.as_ref() {
+                extra["stored_len"] = json!(stored_len(b, ctx.batch_level));
+            }
             if let Some((id, b)) = payload.as_ref() {
                 let planned = ctx.mem.as_ref().and_then(|m| m.preview_chunks(b));
                 match planned {
@@ -686,6 +753,7 @@ pub fn exec(ctx: &mut Ctx, op: &Value) -> (Value, Value) {
                 if let Some(l) = op["level"].as_i64() {
                     o.compression_level = l as i32;
                 }
+                ctx.batch_level = Some(o.compression_level);
                 if let Some(p) = op["presize"].as_u64() {
                     o.wal_pre_size_bytes = p;
                 }
@@ -694,7 +762,10 @@ pub fn exec(ctx: &mut Ctx, op: &Value) -> (Value, Value) {
         },
         "end_batch" => match ctx.mem.as_mut() {
             None => json!({"ok": false, "err": "NoHandle"}),
-            Some(m) => guard(|| m.end_batch(), |_| json!(null)),
+            Some(m) => {
+                ctx.batch_level = None;
+                guard(|| m.end_batch(), |_| json!(null))
+            }
         },
         "commit_skip" => match ctx.mem.as_mut() {
             None => json!({"ok": false, "err": "NoHandle"}),
